@@ -309,3 +309,22 @@ META["C04"] = {
                "thorough": {"graphs_walked": 80000, "prf_nodes_seen": 800000, "prf_calls_logged": 400000, "optimizer_runs": 200000,
                             "random_or_prf_nodes_mapped": 200000, "distinct_nontrivial": 60000}},
 }
+
+
+META["C07"] = {
+    "level": "translation_validation",
+    "rule": "G_iter contexts: one iteration body per strategy class (general incl. bodies that call other graphs, empty state, "
+            "associative with add / multiply / and / xor / Min / Max / 2x2 matmul / left and right projection, one-bit state scalar "
+            "or batched, small state with last dimension 1..4 and 0-2 batch dimensions and row-wise bodies, bodies that draw "
+            "randomness), optionally wrapped in a called graph and iterated twice; vector lengths 0..40 in rotation (extra weight on "
+            "0, 1, 2, 15, 16, 17, 31, 32, 33); default mode in {simple, depth-optimised default, extreme} x call / iterate overrides in "
+            "{none, noop, simple, default, extreme}; a case is one (context, inline configuration); non-trivial = fully inlined, "
+            "length >= 2 and at least one compared evaluation; distinct by structural hash of (context, length, configuration)",
+    "assumptions": COMMON_ASSUMPTIONS + [
+        "reference = SimpleEvaluator's native Call / Iterate evaluation of the instantiated, un-inlined context",
+        "generated bodies satisfy the stated contracts by construction (associative combine operations; one-bit bodies affine in the "
+        "state; small-state bodies built from row-wise operations only)",
+    ],
+    "floors": {"quick": {"inlined_contexts": 4000, "evaluation_pairs": 9000, "random_copy_checks": 200, "distinct_nontrivial": 2500},
+               "thorough": {"inlined_contexts": 70000, "evaluation_pairs": 300000, "random_copy_checks": 4000, "distinct_nontrivial": 40000}},
+}
